@@ -24,6 +24,7 @@ import (
 	"fmt"
 	"math/rand"
 	"os"
+	"regexp"
 	"sort"
 	"strconv"
 	"strings"
@@ -474,8 +475,18 @@ func (q *seq) opBlock(n int64) (string, string) {
 // descriptions start with the property id(s) they belong to.
 type propFilter struct{ out *hx.Out }
 
+// every distinct description is recorded at most twice (shortest replay first seen), so that a frequent violation — the
+// known finding in particular — cannot fill hx.Out's buffer of 50 and mask the others
+var violSeen = map[string]int{}
+
 func (p propFilter) Violate(desc string) {
 	if prop := os.Getenv("VERIF_PROP"); prop != "" && !strings.Contains(strings.SplitN(desc, " ", 2)[0], prop) {
+		return
+	}
+	key := regexp.MustCompile(`[0-9]+`).ReplaceAllString(desc, "#")
+	violSeen[key]++
+	p.out.Count("violation:" + key[:min(len(key), 60)])
+	if violSeen[key] > 2 {
 		return
 	}
 	p.out.Violate(desc)
@@ -605,6 +616,12 @@ func (q *seq) extMonitor(op, res string, pre, post snap) {
 			adm := monotone && created && n > q.extLast[tk] && h < eb.timeout
 			if !adm {
 				q.out.Count("env:batch-exec:inadmissible:" + strings.SplitN(res, ":", 2)[0])
+				if okRes && created { // outside the environment assumptions, but fxcore applied it: the ghost follows
+					q.extLast[tk] = max(q.extLast[tk], n)
+					for _, t := range eb.txs {
+						q.extExecTx[t.id] = true
+					}
+				}
 				break
 			}
 			q.out.Count("env:batch-exec:admissible:" + strings.SplitN(res, ":", 2)[0])
@@ -653,9 +670,7 @@ func (q *seq) extMonitor(op, res string, pre, post snap) {
 					out.Violate("C05/C06 executed never refunded: the external chain ran an outgoing bridge call the bridge contract accepts (nonce not used, block below its timeout, heights non-decreasing) but fxcore no longer holds the record: it was released before an observed event proved the timeout")
 				}
 			}
-			if created {
-				q.extCallDone[c] = true
-			}
+			q.extCallDone[c] = true // also for a nonce that does not exist (yet): the contract reports a nonce at most once
 		}
 		if okRes {
 			if h > q.extMaxH {
@@ -993,9 +1008,9 @@ func (q *seq) do(f func() (string, string)) string {
 	pre := q.snapshot()
 	op, res := f()
 	post := q.snapshot()
+	q.out.Emit(op, q.line(res, post)) // first, so that the replay of a violation ends with the op that violates
 	q.extMonitor(op, res, pre, post)
 	q.monitor(op, res, pre, post)
-	q.out.Emit(op, q.line(res, post))
 	w := strings.Fields(op)
 	kind := w[0]
 	if kind == "obs" {
